@@ -360,6 +360,13 @@ func (x *SExec) apply(i int, op SOp) *Fail {
 		if wf != nil {
 			return wf
 		}
+		if err != nil && x.checkpointCutOff(src, n) {
+			// the replica still carries a checkpoint that a volume revert has cut out
+			// of the healthy replica's chain: the controller refuses to verify such a
+			// rebuild (DESIGN 7.3) - the replica stays rebuilding
+			x.Labels["promote:refused-checkpoint-cut-off-by-revert"]++
+			return nil
+		}
 		if err != nil {
 			return sfail("promote|refused", fmt.Sprintf("rebuild of n%d from n%d failed: %v", n, src, err), "C07", "C03")
 		}
@@ -503,6 +510,8 @@ func (x *SExec) apply(i int, op SOp) *Fail {
 		return x.doSnapRace(i, op)
 	case "ctldelsnap":
 		return x.doCtlDeleteSnapshot(i, op)
+	case "ctlrevert":
+		return x.doCtlRevert(i, op)
 	case "cleaner":
 		return x.doCleaner(i, op)
 	case "rebuild":
@@ -562,6 +571,17 @@ func (x *SExec) apply(i int, op SOp) *Fail {
 		// the other one is connecting to its replica; the bookkeeping invariants
 		// (no duplicate, at most RF, one rebuilding replica) must hold afterwards
 		a, b := op.Node%len(st.Nodes), int(op.N)%len(st.Nodes)
+		if a == b {
+			// two requests for one address meet inside the same replica process as well
+			// (two opens, two data connections of which the node serves one at a time):
+			// what the node then does with the loser's connection is timing dependent
+			// in this harness (a run was seen to blame the controller for a flush that
+			// the node served late); the two candidates are distinct replicas
+			b = (a + 1) % len(st.Nodes)
+			if b == a {
+				return nil
+			}
+		}
 		if x.woNode() >= 0 || x.listed() >= x.P.RF || x.listed() == 0 || x.Mode[a] != "" || x.Mode[b] != "" {
 			return nil
 		}
@@ -1701,7 +1721,9 @@ func (x *SExec) doRebuild(i int, op SOp) *Fail {
 		verr := st.C.VerifyRebuildReplica(d.Addr)
 		d.ClearFaults()
 		if verr != nil {
-			if op.Str == "" || (op.Str == "nocopy" && !nocopy) || (op.Str == "skipfile" && skip < 0) {
+			if x.checkpointCutOff(src, dst) {
+				x.Labels["rebuild:refused-checkpoint-cut-off-by-revert"]++
+			} else if op.Str == "" || (op.Str == "nocopy" && !nocopy) || (op.Str == "skipfile" && skip < 0) {
 				return sfail("rebuild|verify-refused", fmt.Sprintf("verification of a complete rebuild failed: %v", verr), "C07")
 			}
 			interrupted = "verify failed: " + verr.Error()
@@ -2079,6 +2101,147 @@ func (x *SExec) doSnapRace(i int, op SOp) *Fail {
 			return sfail("snapshot|refused-but-taken", fmt.Sprintf("volume snapshot %s was refused (%v) but exists on %v", name, serr, holders), "C13")
 		}
 		x.Labels["snaprace:refused"]++
+	}
+	return nil
+}
+
+// checkpointCutOff: the rebuilding replica dst persists a checkpoint that is not
+// in the chain of the healthy replica src (ground truth from the directories).
+func (x *SExec) checkpointCutOff(src, dst int) bool {
+	vm, err := readVolMeta(x.St.Nodes[dst].Dir)
+	if err != nil || vm.Checkpoint == "" {
+		return false
+	}
+	r := x.St.Nodes[src].S.Replica()
+	if r == nil {
+		return false
+	}
+	ch, err := r.Chain()
+	if err != nil {
+		return false
+	}
+	for _, d := range ch {
+		if d == vm.Checkpoint {
+			return false
+		}
+	}
+	return true
+}
+
+// doCtlRevert: Controller.Revert(name) to the op.N-th volume snapshot that is still
+// in the live chain; op.Fail = replicas whose revert request fails. The volume is
+// reverted only with an RW replica and no rebuilding one; afterwards the volume and
+// every RW replica read back exactly the image the snapshot captured, replicas
+// that failed the request are marked failed, and the status follows.
+func (x *SExec) doCtlRevert(i int, op SOp) *Fail {
+	st := x.St
+	var cands []int
+	for k, n := range x.snaps {
+		if x.snapImg[n] != nil && x.snapMarked[n] == "" {
+			cands = append(cands, k)
+		}
+	}
+	if len(cands) == 0 {
+		return nil
+	}
+	k := cands[int(op.N)%len(cands)]
+	name := x.snaps[k]
+	// a replica the controller still lists although the model has it detached
+	// (removal in flight) makes the precondition ambiguous: not generated
+	for j, m := range x.Mode {
+		if m == "" && st.Mode(j) != "" {
+			return nil
+		}
+	}
+	hasWO := x.woNode() >= 0
+	nrw := x.nRW()
+	F := map[int]bool{}
+	if !hasWO && nrw > 0 {
+		for _, j := range op.Fail {
+			j = j % len(st.Nodes)
+			if x.Mode[j] == types.RW {
+				st.Nodes[j].FailRest("revert", 1)
+				F[j] = true
+			}
+		}
+	}
+	before := make([]int, len(st.Nodes))
+	for j, nd := range st.Nodes {
+		before[j] = nd.RestCount("action=revert") + nd.RestCount("?revert")
+	}
+	err := st.C.Revert(name)
+	for _, nd := range st.Nodes {
+		nd.ClearFaults()
+		nd.fixDrainer()
+	}
+	x.tracef("ctlrevert %s rw=%d wo=%v F=%v -> %v", name, nrw, hasWO, keys(F), err)
+	x.Labels["ctlrevert"]++
+	if hasWO || nrw == 0 {
+		if err == nil {
+			return sfail("ctlrevert|invalid-state|accepted", fmt.Sprintf("volume revert accepted with modes %v", x.Mode), "C06", "C07")
+		}
+		for j, nd := range st.Nodes {
+			if nd.RestCount("action=revert")+nd.RestCount("?revert") != before[j] {
+				return sfail("ctlrevert|refused-but-reached-replica", fmt.Sprintf("the refused revert reached n%d", j), "C06", "C12")
+			}
+		}
+		return nil
+	}
+	for j := range F {
+		x.Mode[j] = types.ERR
+		x.Frozen[j] = st.Nodes[j].LogLen("write", "read", "sync", "unmap")
+	}
+	if len(F) == nrw {
+		if err == nil {
+			return sfail("ctlrevert|all-failed|accepted", "volume revert reported success although every replica failed it", "C06")
+		}
+		return nil
+	}
+	if err != nil {
+		return sfail("ctlrevert|valid|refused", fmt.Sprintf("volume revert to %s refused: %v", name, err), "C06")
+	}
+	x.Labels["ctlrevert:ok"]++
+	if len(F) > 0 {
+		x.Labels["ctlrevert:partial-failure"]++
+	}
+	// the model: the volume is the snapshot's image; later snapshots are cut off
+	x.Live = x.snapImg[name].Clone()
+	for _, later := range x.snaps[k+1:] {
+		delete(x.snapImg, later)
+	}
+	x.snaps = x.snaps[:k+1]
+	size := x.Live.size()
+	buf := make([]byte, size)
+	for j, nd := range st.Nodes {
+		if x.Mode[j] != types.RW {
+			continue
+		}
+		if nd.S.Replica() == nil {
+			return sfail("ctlrevert|replica-closed", fmt.Sprintf("n%d is RW but not open after the revert", j), "C06")
+		}
+		if _, err := nd.S.ReadAt(buf, 0); err != nil {
+			return sfail("ctlrevert|replica-unreadable", fmt.Sprintf("n%d: %v", j, err), "C06")
+		}
+		if d := x.Live.Diff(buf, 0); d != "" && !x.subBlockHit(j, buf, 0) {
+			return sfail("ctlrevert|replica-image-differs", fmt.Sprintf("after reverting the volume to %s, n%d reads: %s", name, j, d), "C06")
+		}
+		ch, _ := nd.S.Replica().Chain()
+		if len(ch) < 2 || ch[1] != snapDisk(name) {
+			return sfail("ctlrevert|chain", fmt.Sprintf("after reverting to %s the chain of n%d is %v", name, j, ch), "C06", "C12")
+		}
+	}
+	if n, err := st.C.ReadAt(buf, 0); err != nil || int64(n) != size {
+		return sfail("ctlrevert|volume-unreadable", fmt.Sprintf("read through the controller after the revert: n=%d err=%v", n, err), "C06", "C04")
+	} else if d := x.Live.Diff(buf, 0); d != "" {
+		hit := false
+		for j := range st.Nodes {
+			if x.Mode[j] == types.RW && x.subBlockHit(j, buf, 0) {
+				hit = true
+			}
+		}
+		if !hit {
+			return sfail("ctlrevert|volume-image-differs", fmt.Sprintf("after reverting the volume to %s it reads: %s", name, d), "C06")
+		}
 	}
 	return nil
 }
